@@ -215,7 +215,27 @@ def iterate(ex, p, v, node=None):
         yield p, list(v.items)
     elif isinstance(v, VRange):
         if not v.conc():
-            raise EngineError(f'range with symbolic bounds needs a loop invariant (line {getattr(node, "lineno", "?")})')
+            # symbolic bounds: fork over the (small) possible lengths; beyond the limit an invariant is needed
+            if not (v.step.conc() and v.step.t == 1):
+                raise EngineError('range with symbolic step')
+            limit = ex.ctx.opts.get('range_fork_limit', 8)
+            n = v.hi.z() - v.lo.z()
+            rest = p
+            for k in range(limit + 1):
+                if rest is None:
+                    break
+                cond = (n <= 0) if k == 0 else (n == k)
+                got = list(ex.branch(rest, cond, f'range{k}'))
+                rest = None
+                for q2, cc in got:
+                    if cc:
+                        yield q2, [VInt(z3.simplify(v.lo.z() + i)) for i in range(k)]
+                    else:
+                        rest = q2
+            if rest is not None:
+                raise EngineError(f'range with symbolic bounds may exceed {limit} iterations: needs a loop invariant '
+                                  f'(line {getattr(node, "lineno", "?")})')
+            return
         yield p, v.items()
     elif isinstance(v, VRef):
         h = p.heap[v.ref]
